@@ -902,6 +902,10 @@ def desugar_map_filter(tree):
                 elif isinstance(f, ast.Constant) and f.value is None:
                     x = fresh()
                     g = ast.GeneratorExp(ast.Name(x, ast.Load()), [ast.comprehension(ast.Name(x, ast.Store()), it, [ast.Name(x, ast.Load())], 0)])
+                elif isinstance(f, (ast.Name, ast.Attribute)):
+                    x = fresh()
+                    g = ast.GeneratorExp(ast.Name(x, ast.Load()), [ast.comprehension(
+                        ast.Name(x, ast.Store()), it, [ast.Call(f, [ast.Name(x, ast.Load())], [])], 0)])
                 else:
                     return n
             return ast.copy_location(g, n)
@@ -1264,6 +1268,25 @@ def _drop_unreferenced_closures(fn, names):
     fn.body = prune(fn.body) or [ast.copy_location(ast.Pass(), fn)]
 
 
+def _predicate_expr(body):
+    """the boolean expression computed by a body of the form  [if <t>: return <True|False>]* ; return <e>"""
+    if not body or not isinstance(body[-1], ast.Return) or body[-1].value is None:
+        return None
+    expr = body[-1].value
+    for st in reversed(body[:-1]):
+        if not (isinstance(st, ast.If) and not st.orelse and len(st.body) == 1 and isinstance(st.body[0], ast.Return)
+                and isinstance(st.body[0].value, ast.Constant) and isinstance(st.body[0].value.value, bool)):
+            return None
+        t = st.test
+        if st.body[0].value.value is False:
+            nt = _negated(t)
+            nt = nt if nt is not None else ast.copy_location(ast.UnaryOp(ast.Not(), t), t)
+            expr = ast.copy_location(ast.BoolOp(ast.And(), [nt, expr]), t)
+        else:
+            expr = ast.copy_location(ast.BoolOp(ast.Or(), [t, expr]), t)
+    return expr
+
+
 def inline_expression_closures(tree):
     """A nested function whose body is one `return <expr>` (or a lambda bound to a local name), called with pure simple
     arguments inside the function that defines it, is replaced by that expression at the call (a closure reads its
@@ -1279,6 +1302,10 @@ def inline_expression_closures(tree):
             if isinstance(st, ast.FunctionDef) and not st.decorator_list and not st.args.vararg and not st.args.kwarg \
                     and not st.args.kwonlyargs and not st.args.defaults:
                 body = [b for b in st.body if not (isinstance(b, ast.Expr) and isinstance(b.value, ast.Constant))]
+                # `if t: return False` ... `return e`   is   (not t) and ... and e ;  `if t: return True` ... is  t or ...
+                pred = _predicate_expr(body)
+                if pred is not None and len(body) > 1:
+                    body = [ast.copy_location(ast.Return(pred), body[-1])]
                 if len(body) == 1 and isinstance(body[0], ast.Return) and body[0].value is not None \
                         and not any(isinstance(x, (ast.Yield, ast.YieldFrom, ast.Lambda)) for x in ast.walk(body[0].value)) \
                         and not any(isinstance(x, ast.Name) and x.id == st.name for x in ast.walk(body[0].value)):
